@@ -10,6 +10,13 @@
 //! calls, operators, struct literals, `?` and `.map(|t| ..)` on `Option`, `.unwrap()` / `.expect()`
 //! (as `Outcome` binds), `&mut self` methods (return the new value too), `for` loops over a constant table
 //! or a bit iterator (as `List.foldl` over the tuple of assigned variables).
+//! Closures: `.map(|t| e)`, `.and_then(|w| { .. })` (as `Option.bind` of a lambda whose body is translated as a function
+//! returning `Option`, with its own `?`), `let m = opt.map(|t| { y = t; });` (a closure that only assigns captured
+//! variables: a `match` on `opt` rebinding the assigned variables next to `m : Option Unit`).  Any other closure that
+//! assigns / mutably borrows a captured variable is refused.  `?` nested in an expression of a `let` (`let z = if c { a? }
+//! else { b * d? };`) or in a statement `if` (`if c { y = e?; }`): `Option.bind (<Option-valued expression>) (fun z => rest)`.
+//! `return match ..`, struct-variant errors (`Error::InvalidLength { .. }`), `.ok()`, `.ok_or(E)`, `Ok(N(e?))` on the same
+//! error type, `*self.0.x_mut() = v` (record update).
 use std::collections::{BTreeMap, BTreeSet};
 use std::fmt::Write as _;
 use syn::*;
@@ -41,6 +48,14 @@ struct Ctx {
     lib: bool,                // lib.rs: newtype wrappers (`Fq(..)`, `.0`) are the identity, byte slices are `List UInt8`
     elem: String,             // lib.rs `impl G1` / `impl G2`: the coordinate field ("Fq" / "Fq2")
     unit_ret: bool,           // `&mut self` method without a return value: returns the new `self`
+    try_scope: std::cell::Cell<bool>,                  // inside an expression whose nested `?` are hoisted (see `opt_expr`)
+    tries: std::cell::RefCell<Vec<(String, String)>>,  // pending hoisted `?` (name, Option-valued expr)
+    some_tail: bool,          // the block being translated is an `Option`-valued expression: its tail value `v` is `some v`
+    ind: std::cell::Cell<usize>,                       // indentation of the statement being translated
+    assoc_err: String,        // trait impls: the Lean name of `Self::Error`
+    ret_err: String,          // the error type named in the function's `Result<_, E>` return type (source spelling)
+    tail_call: std::cell::Cell<bool>,                  // the expression being translated is the value of the enclosing function / closure
+    top_last: std::cell::Cell<*const Stmt>,            // the last statement of the body of the function / closure being translated
 }
 
 fn ty_name(t: &Type, cx: &Ctx) -> R<String> {
@@ -65,7 +80,7 @@ fn ty_name(t: &Type, cx: &Ctx) -> R<String> {
                 "Result" => {
                     if let PathArguments::AngleBracketed(a) = &last.arguments {
                         if let Some(GenericArgument::Type(t)) = a.args.first() {
-                            let et = match a.args.iter().nth(1) { Some(GenericArgument::Type(Type::Path(ep))) => { let n = path_str(&ep.path); if n == "Error" { cx.err_ty.clone() } else { n } } _ => cx.err_ty.clone() };
+                            let et = match a.args.iter().nth(1) { Some(GenericArgument::Type(Type::Path(ep))) => { let n = path_str(&ep.path); if n == "Error" { cx.err_ty.clone() } else if n == "Self::Error" { if cx.assoc_err.is_empty() { return Err("Self::Error without `type Error = ..` in the impl".into()); } cx.assoc_err.clone() } else { n } } _ => cx.err_ty.clone() };
                             return Ok(format!("Except {} ({})", et, ty_name(t, cx)?));
                         }
                     }
@@ -155,6 +170,174 @@ fn is_num(cx: &Ctx, e: &Expr) -> bool {
     }
 }
 
+/// does the expression contain a `?` token?  (an over-approximation — a `?` inside a nested closure counts — which is harmless:
+/// it only selects the `Option.bind` form of a statement)
+fn has_try<T: quote::ToTokens>(e: &T) -> bool {
+    fn go(ts: proc_macro2::TokenStream) -> bool {
+        ts.into_iter().any(|t| match t { proc_macro2::TokenTree::Punct(p) => p.as_char() == '?', proc_macro2::TokenTree::Group(g) => go(g.stream()), _ => false })
+    }
+    go(quote::quote!(#e))
+}
+
+/// Names assigned inside a token stream (`x = ..`, `x op= ..`, `x.f = ..`, `x[i] = ..`, `*x.m() = ..`, `(x, y) = ..`) at a point
+/// where no `let` statement of an enclosing scope (inside the stream) has declared them.  Token-level and conservative:
+/// false positives (type ascriptions, `if let` bindings, closure parameters) only make a function be skipped.
+fn assigned_names(toks: &[proc_macro2::TokenTree], declared: &mut BTreeSet<String>, out: &mut BTreeSet<String>) {
+    use proc_macro2::{Delimiter, Spacing, TokenTree as TT};
+    fn idents(ts: proc_macro2::TokenStream, acc: &mut Vec<String>) {
+        for t in ts { match t { TT::Ident(i) => { let s = i.to_string(); if s != "mut" && s != "ref" { acc.push(s); } } TT::Group(g) => idents(g.stream(), acc), _ => {} } }
+    }
+    let mut i = 0;
+    while i < toks.len() {
+        match &toks[i] {
+            TT::Ident(id) if id == "let" && (i == 0 || matches!(&toks[i - 1], TT::Punct(p) if p.as_char() == ';') || matches!(&toks[i - 1], TT::Group(g) if g.delimiter() == Delimiter::Brace)) => {
+                // `let PAT [: TY] = INIT;` in statement position: INIT is scanned first, then the names of PAT are declared
+                let mut j = i + 1;
+                let mut names = vec![];
+                let mut in_ty = false;
+                while j < toks.len() {
+                    match &toks[j] {
+                        TT::Punct(p) if p.as_char() == ';' => break,
+                        TT::Punct(p) if p.as_char() == '=' && p.spacing() == Spacing::Alone && !matches!(&toks[j - 1], TT::Punct(q) if q.spacing() == Spacing::Joint) => break,
+                        TT::Punct(p) if p.as_char() == ':' => in_ty = true,
+                        TT::Ident(n) if !in_ty => { let s = n.to_string(); if s != "mut" && s != "ref" { names.push(s); } }
+                        TT::Group(g) if !in_ty => idents(g.stream(), &mut names),
+                        _ => {}
+                    }
+                    j += 1;
+                }
+                let mut k = j;
+                while k < toks.len() && !matches!(&toks[k], TT::Punct(p) if p.as_char() == ';') { k += 1; }
+                if j < k { assigned_names(&toks[j + 1..k], declared, out); }
+                for n in names { declared.insert(n); }
+                i = k + 1;
+                continue;
+            }
+            TT::Group(g) => {
+                let inner: Vec<TT> = g.stream().into_iter().collect();
+                let mut d2 = declared.clone();
+                assigned_names(&inner, &mut d2, out);
+            }
+            TT::Punct(p) if p.as_char() == '=' && p.spacing() == Spacing::Alone && i > 0 => {
+                // which kind of `=` is it?  `==` `!=` `<=` `>=` `..=` are not assignments; `op=` / `<<=` / `>>=` are
+                let mut end: Option<usize> = Some(i - 1);       // index of the last token of the assigned place
+                if let TT::Punct(q) = &toks[i - 1] {
+                    if q.spacing() == Spacing::Joint {
+                        let c = q.as_char();
+                        let shift = (c == '<' || c == '>') && i >= 2 && matches!(&toks[i - 2], TT::Punct(r) if r.as_char() == c && r.spacing() == Spacing::Joint);
+                        end = if shift { i.checked_sub(3) } else if "+-*/%^&|".contains(c) { i.checked_sub(2) } else { None };
+                    }
+                }
+                if let Some(mut t) = end {
+                    loop {
+                        match &toks[t] {
+                            TT::Group(g) if g.delimiter() == Delimiter::Bracket && t > 0 => { t -= 1; }
+                            TT::Group(g) if g.delimiter() == Delimiter::Parenthesis => {
+                                if t > 0 && matches!(&toks[t - 1], TT::Ident(_)) { t -= 1; }     // `place.method()`
+                                else { let mut v = vec![]; idents(g.stream(), &mut v); for n in v { if !declared.contains(&n) { out.insert(n); } } break; }
+                            }
+                            TT::Ident(_) | TT::Literal(_) => {
+                                if t >= 2 && matches!(&toks[t - 1], TT::Punct(q) if q.as_char() == '.') { t -= 2; }
+                                else { if let TT::Ident(n) = &toks[t] { let n = n.to_string(); if !declared.contains(&n) { out.insert(n); } } break; }
+                            }
+                            _ => { out.insert("<unknown place>".into()); break; }
+                        }
+                    }
+                }
+            }
+            _ => {}
+        }
+        i += 1;
+    }
+}
+
+/// methods that mutate their receiver (`&mut self`) in the translated sources
+fn is_mutating_method(n: &str) -> bool {
+    matches!(n, "push" | "normalize" | "copy_from_slice" | "g_tangent" | "g_line" | "set_bit" | "insert" | "clear" | "extend" | "pop" | "truncate" | "swap" | "reverse" | "fill")
+        || n.ends_with("_assign") || n.ends_with("_mut") || n.starts_with("set_")
+}
+
+/// the captured variables a closure assigns; `Err` when it may mutate a captured variable in a way that is not tracked
+/// (`&mut x`, a `&mut self` method)
+fn captured_assigns(c: &ExprClosure) -> R<BTreeSet<String>> {
+    use proc_macro2::TokenTree as TT;
+    fn hazard(ts: proc_macro2::TokenStream) -> R<()> {
+        let toks: Vec<TT> = ts.into_iter().collect();
+        for (i, t) in toks.iter().enumerate() {
+            match t {
+                TT::Ident(id) if id == "mut" && i > 0 && matches!(&toks[i - 1], TT::Punct(p) if p.as_char() == '&') => return Err("closure takes a `&mut` borrow".into()),
+                TT::Ident(id) if i > 0 && matches!(&toks[i - 1], TT::Punct(p) if p.as_char() == '.') && matches!(toks.get(i + 1), Some(TT::Group(_))) && is_mutating_method(&id.to_string()) =>
+                    return Err(format!("closure calls the mutating method `{}`", id)),
+                TT::Group(g) => hazard(g.stream())?,
+                _ => {}
+            }
+        }
+        Ok(())
+    }
+    let body = &c.body;
+    hazard(quote::quote!(#body))?;
+    let mut declared: BTreeSet<String> = BTreeSet::new();
+    for p in &c.inputs { if let Ok(s) = pat_str(p) { for v in s.replace(['(', ')', ','], " ").split_whitespace() { declared.insert(v.to_string()); } } }
+    let mut out = BTreeSet::new();
+    let toks: Vec<TT> = quote::quote!(#body).into_iter().collect();
+    assigned_names(&toks, &mut declared, &mut out);
+    Ok(out)
+}
+
+/// a closure translated as a plain lambda must not assign captured variables (the assignment would be lost)
+fn closure_guard(c: &ExprClosure) -> R<()> {
+    let a = captured_assigns(c)?;
+    if a.is_empty() { Ok(()) } else { Err(format!("closure assigns captured variable(s) {}", a.into_iter().collect::<Vec<_>>().join(", "))) }
+}
+
+/// the single parameter of a closure
+fn closure_param(c: &ExprClosure) -> R<String> {
+    if c.inputs.len() != 1 { return Err("closure arity".into()); }
+    match &c.inputs[0] { Pat::Ident(_) | Pat::Type(_) | Pat::Wild(_) => pat_str(&c.inputs[0]), _ => Err("closure pattern".into()) }
+}
+
+/// An expression that may contain `?`, as an `Option`-valued Lean term (`none` = the `?` returned early).  `e?` itself is `e`;
+/// an `if`/block is translated branch by branch; in any other expression the nested `?` are hoisted in front
+/// (`match e1 with | none => none | some q0 => some (.. q0 ..)`), which is exact for pure operands whose only effect is `None`.
+fn opt_expr(cx: &Ctx, e: &Expr, ind: usize) -> R<String> {
+    if cx.outcome { return Err("`?` nested in an expression of an Outcome function".into()); }
+    if !cx.ret_option { return Err("`?` in a function not returning Option".into()); }
+    match e {
+        Expr::Paren(p) => opt_expr(cx, &p.expr, ind),
+        Expr::Group(g) => opt_expr(cx, &g.expr, ind),
+        Expr::Try(t) if !has_try(&t.expr) => Ok(paren(&expr(cx, &t.expr)?)),
+        Expr::If(i) => {
+            if has_try(&i.cond) { return Err("`?` in a condition".into()); }
+            let c = expr(cx, &i.cond)?;
+            let t = opt_block(cx, &i.then_branch, ind)?;
+            let el = match &i.else_branch { Some((_, e)) => opt_expr(cx, e, ind)?, None => return Err("if without else in expression position".into()) };
+            Ok(format!("(if {} then {} else {})", c, t, el))
+        }
+        Expr::Block(b) => opt_block(cx, &b.block, ind),
+        Expr::Match(_) | Expr::Closure(_) | Expr::Return(_) => Err("`?` under a match / closure / return inside an expression".into()),
+        _ => {
+            let saved_scope = cx.try_scope.replace(true);
+            let saved: Vec<(String, String)> = cx.tries.borrow_mut().drain(..).collect();
+            let v = expr(cx, e);
+            cx.try_scope.set(saved_scope);
+            let mine: Vec<(String, String)> = cx.tries.borrow_mut().drain(..).collect();
+            cx.tries.borrow_mut().extend(saved);
+            let v = v?;
+            let mut s = format!("(some {})", paren(&v));
+            for (q, inner) in mine.iter().rev() { s = format!("(match {} with | none => none | some {} => {})", inner, q, s); }
+            Ok(s)
+        }
+    }
+}
+
+fn opt_block(cx: &Ctx, b: &Block, ind: usize) -> R<String> {
+    if let [Stmt::Expr(e, None)] = &b.stmts[..] { return opt_expr(cx, e, ind); }
+    if contains_return(b) { return Err("`return` inside an Option-valued block".into()); }
+    let sub = Ctx { some_tail: true, ..cx.clone() };
+    let body = stmts(&sub, &b.stmts, ind + 4, None)?;
+    Ok(format!("(\n{})", body))
+}
+
 /// lib.rs idioms; `None` = not one of them, fall through to the general translation
 fn lib_expr(cx: &Ctx, e: &Expr) -> R<Option<String>> {
     if let Expr::Binary(b) = e {
@@ -167,15 +350,36 @@ fn lib_expr(cx: &Ctx, e: &Expr) -> R<Option<String>> {
         Expr::Field(f) if matches!(&f.member, Member::Unnamed(i) if i.index == 0) => expr(cx, &f.base)?,
         Expr::Call(c) => {
             let f = match &*c.func { Expr::Path(p) => path_str(&p.path), _ => return Ok(None) };
-            let args: R<Vec<String>> = c.args.iter().map(|a| expr(cx, a)).collect();
+            let args: R<Vec<String>> = if f == "Ok" { Ok(vec![String::new(); c.args.len()]) } else { c.args.iter().map(|a| expr(cx, a)).collect() };
             let args = args?;
             match (f.as_str(), args.len()) {
                 (n, 1) if NEWTYPES.contains(&n) => args[0].clone(),
                 ("Self::b", 0) => if cx.elem == "Fq" { "Sm9.Api.g1B".into() } else { "Sm9.Api.g2B".into() },
                 ("fields::Fq::from_slice", 1) => format!("(Sm9.Api.fqFromSliceStrict {})", paren(&args[0])),
                 ("Fq2::from_slice", 1) => format!("(Sm9.Api.fq2FromSlice {})", paren(&args[0])),
-                ("AffineG1::new", 2) => format!("(Sm9.AffineG.new (F := Fq) {} {})", paren(&args[0]), paren(&args[1])),
-                ("AffineG2::new", 2) => format!("(Sm9.AffineG.new (F := Fq2) {} {})", paren(&args[0]), paren(&args[1])),
+                ("AffineG1::new", 2) | ("groups::AffineG1::new", 2) => format!("(Sm9.AffineG.new (F := Fq) {} {})", paren(&args[0]), paren(&args[1])),
+                ("AffineG2::new", 2) | ("groups::AffineG2::new", 2) => format!("(Sm9.AffineG.new (F := Fq2) {} {})", paren(&args[0]), paren(&args[1])),
+                // `Ok(N(e?))` where `e : Result<_, E>` and the function returns `Result<_, E>` with the same `E` (`?` converts the
+                // error with the identity `From`): the whole expression is `e`
+                ("Ok", 1) if cx.ret_result && { let mut a = &c.args[0]; loop { match a { Expr::Paren(p) => a = &p.expr, Expr::Call(w) if w.args.len() == 1 && matches!(&*w.func, Expr::Path(p) if NEWTYPES.contains(&path_str(&p.path).as_str())) => a = &w.args[0], _ => break } } matches!(a, Expr::Try(_)) } => {
+                    let mut a = &c.args[0];
+                    loop { match a { Expr::Paren(p) => a = &p.expr, Expr::Call(w) if w.args.len() == 1 && matches!(&*w.func, Expr::Path(p) if NEWTYPES.contains(&path_str(&p.path).as_str())) => a = &w.args[0], _ => break } }
+                    let Expr::Try(t) = a else { unreachable!() };
+                    let mut inner = &*t.expr;
+                    while let Expr::Paren(p) = inner { inner = &p.expr; }
+                    let callee = match inner { Expr::Call(ic) => match &*ic.func { Expr::Path(p) => path_str(&p.path), _ => String::new() }, _ => String::new() };
+                    let callee_err = match callee.as_str() { "groups::AffineG1::new" | "groups::AffineG2::new" => "GroupError", _ => return Err(format!("`Ok(..?)`: error type of `{}` unknown", callee)) };
+                    if cx.ret_err != callee_err { return Err(format!("`Ok(..?)` converts the error type {} into {}", callee_err, cx.ret_err)); }
+                    expr(cx, &t.expr)?
+                }
+                ("fields::Fq2::one", 0) => "Sm9.Fq2.one".into(),
+                ("fields::Fq2::zero", 0) => "Sm9.Fq2.zero".into(),
+                ("fields::Fq2::new", 2) => format!("(Sm9.Fq2.new {} {})", paren(&args[0]), paren(&args[1])),
+                ("fields::Fq2::from_slice", 1) => format!("(Sm9.fq2FromSliceE {})", paren(&args[0])),
+                // inside fields/fq2.rs `Fq` is `fields::Fq` (strict 32-byte decoder); in lib.rs it is the lenient wrapper
+                ("Fq::from_slice", 1) if !cx.ns.starts_with("Lib") => format!("(Sm9.Api.fqFromSliceStrict {})", paren(&args[0])),
+                ("G1Params::coeff_b", 0) => "(GroupParams.coeff_b : Fq)".into(),
+                ("G2Params::coeff_b", 0) => "(GroupParams.coeff_b : Fq2)".into(),
                 ("AffineG1::from_jacobian", 1) | ("AffineG2::from_jacobian", 1) => format!("{}.to_affine", paren(&args[0])),
                 ("Self::from_slice", 1) => if cx.elem == "Fq" { format!("(Sm9.Api.g1FromSlice {})", paren(&args[0])) } else { format!("(Sm9.Api.g2FromSlice {})", paren(&args[0])) },
                 ("groups::G1::zero", 0) | ("groups::G2::zero", 0) => "Sm9.G.zero".into(),
@@ -212,10 +416,19 @@ fn lib_expr(cx: &Ctx, e: &Expr) -> R<Option<String>> {
                     format!("(Except.map (fun a => Sm9.AffineG.to_jacobian a) {})", paren(&expr(cx, &m.receiver)?)),
                 ("map_err", 1) => {
                     if let Expr::Closure(c) = &m.args[0] { if matches!(c.inputs.first(), Some(Pat::Wild(_))) {
+                        closure_guard(c)?;
                         return Ok(Some(format!("(Except.mapError (fun _ => {}) {})", expr(cx, &c.body)?, paren(&expr(cx, &m.receiver)?))));
                     } }
                     return Err("map_err closure".into());
                 }
+                ("ok", 0) => format!("(Except.toOption {})", paren(&expr(cx, &m.receiver)?)),
+                ("ok_or", 1) if cx.ret_result => { let r = expr(cx, &m.receiver)?; format!("(match {} with | some v => Except.ok v | none => Except.error {})", r, paren(&expr(cx, &m.args[0])?)) }
+                // `x.into_u256().is_even()` on a lib.rs `Fq`: parity of the canonical value
+                ("is_even", 0) if matches!(&*m.receiver, Expr::MethodCall(i) if i.method == "into_u256" && i.args.is_empty()) => {
+                    let Expr::MethodCall(i) = &*m.receiver else { unreachable!() };
+                    format!("(Sm9.Fq.is_even {})", paren(&expr(cx, &i.receiver)?))
+                }
+                ("to_slice", 0) if cx.ns == "LibFq2" => format!("(Sm9.Api.fq2ToSlice {})", paren(&expr(cx, &m.receiver)?)),
                 ("is_even", 0) => { let r = expr(cx, &m.receiver)?; if cx.elem == "Fq" { format!("{}.is_even", paren(&r)) } else { format!("(Sm9.Api.fq2IsEven {})", paren(&r)) } }
                 ("sqrt", 0) => format!("{}.sqrt", paren(&expr(cx, &m.receiver)?)),
                 ("pow", 1) if cx.self_ty == "Fq12" => format!("(Sm9.Api.gtPow {} {})", paren(&expr(cx, &m.receiver)?), paren(&expr(cx, &m.args[0])?)),
@@ -240,7 +453,20 @@ fn lib_expr(cx: &Ctx, e: &Expr) -> R<Option<String>> {
     }))
 }
 
+/// translate a closure body with `?`-hoisting switched off (a `?` inside a closure belongs to the closure)
+fn in_closure<T>(cx: &Ctx, f: impl FnOnce() -> R<T>) -> R<T> {
+    let s = cx.try_scope.replace(false);
+    let r = f();
+    cx.try_scope.set(s);
+    r
+}
+
 fn expr(cx: &Ctx, e: &Expr) -> R<String> {
+    // hoisting a `?` out of a conditionally evaluated sub-expression would change the meaning
+    if cx.try_scope.get() && has_try(e) {
+        let cond = match e { Expr::If(_) | Expr::Block(_) | Expr::Match(_) | Expr::While(_) | Expr::ForLoop(_) | Expr::Loop(_) => true, Expr::Binary(b) => matches!(b.op, BinOp::And(_) | BinOp::Or(_)), _ => false };
+        if cond { return Err("`?` under a conditional inside an expression".into()); }
+    }
     if cx.lib { if let Some(s) = lib_expr(cx, e)? { return Ok(s); } }
     Ok(match e {
         Expr::Paren(p) => format!("({})", expr(cx, &p.expr)?),
@@ -305,11 +531,20 @@ fn expr(cx: &Ctx, e: &Expr) -> R<String> {
         Expr::MethodCall(m) => method_call(cx, m)?,
         Expr::Call(c) => call(cx, c)?,
         Expr::Struct(s) => {
+            if s.rest.is_some() { return Err("struct update syntax".into()); }
             let fields: R<Vec<String>> = s.fields.iter().map(|fv| {
                 let n = match &fv.member { Member::Named(i) => i.to_string(), _ => "?".into() };
                 Ok(format!("{} := {}", n, expr(cx, &fv.expr)?))
             }).collect();
             let tn = path_str(&s.path);
+            if let Some(variant) = tn.strip_prefix("Error::") {
+                // struct-variant error `Error::InvalidLength { expected: 64, actual: n }`: constructor with named arguments
+                let args: R<Vec<String>> = s.fields.iter().map(|fv| {
+                    let n = match &fv.member { Member::Named(i) => i.to_string(), _ => return Err("tuple field in a struct variant".to_string()) };
+                    Ok(format!("({} := {})", n, expr(cx, &fv.expr)?))
+                }).collect();
+                return Ok(format!("({}.{} {})", cx.err_ty, variant, args?.join(" ")));
+            }
             let tn = match tn.as_str() { "Self" => cx.self_ty.clone(), "G" => format!("G {}", cx.mono.clone().ok_or("G")?), "AffineG" => format!("AffineG {}", cx.mono.clone().ok_or("AffineG")?), o => o.to_string() };
             format!("({{ {} }} : {})", fields?.join(", "), tn)
         }
@@ -323,7 +558,14 @@ fn expr(cx: &Ctx, e: &Expr) -> R<String> {
         }
         Expr::Lit(l) => match &l.lit { Lit::Int(i) => i.base10_digits().to_string(), Lit::Bool(b) => b.value.to_string(), _ => return Err("literal".into()) },
         Expr::Try(t) => {
-            // handled at statement level; a nested `?` is hoisted like unwrap but into Option
+            // `let x = e?;` is handled at statement level; a nested `?` is hoisted by `opt_expr`
+            if cx.try_scope.get() && cx.ret_option && !cx.outcome {
+                let inner = expr(cx, &t.expr)?;
+                let k = cx.fresh.get(); cx.fresh.set(k + 1);
+                let q = format!("q{}", k);
+                cx.tries.borrow_mut().push((q.clone(), inner));
+                return Ok(q);
+            }
             return Err(format!("nested `?`: {}", quote::quote!(#t)));
         }
         Expr::If(i) => {
@@ -391,6 +633,7 @@ fn call(cx: &Ctx, c: &ExprCall) -> R<String> {
 
 fn method_call(cx: &Ctx, m: &ExprMethodCall) -> R<String> {
     let name = m.method.to_string();
+    let tail = cx.tail_call.replace(false);     // only this call itself (not its receiver / arguments) is in tail position
     // Fq::new(*CONST).unwrap()  — a source constant: resolved to the literal (Proofs/Consts.lean: all < q)
     if name == "unwrap" || name == "expect" {
         if let Expr::Call(c) = &*m.receiver {
@@ -412,8 +655,30 @@ fn method_call(cx: &Ctx, m: &ExprMethodCall) -> R<String> {
         return Ok(v);
     }
     let recv = expr(cx, &m.receiver)?;
+    if name == "and_then" && m.args.len() == 1 {
+        // `opt.and_then(|w| { .. })`: `Option.bind opt (fun w => ..)`; the closure body is a function body returning `Option`
+        // (its own `?` / `return`).  A closure that assigns captured variables is accepted only in tail position, where the
+        // assignment cannot be observed after the call (see `stmts`).
+        let Expr::Closure(c) = &m.args[0] else { return Err("and_then of non-closure".into()) };
+        if cx.outcome { return Err("and_then in an Outcome function".into()); }
+        let assigned = captured_assigns(c)?;
+        if !assigned.is_empty() && !(tail && !cx.mut_self && !cx.unit_ret) {
+            return Err(format!("closure assigns captured variable(s) {} and is not in tail position", assigned.into_iter().collect::<Vec<_>>().join(", ")));
+        }
+        let p = closure_param(c)?;
+        let ind = cx.ind.get();
+        let sub = Ctx { ret_option: true, ret_result: false, mut_self: false, unit_ret: false, some_tail: false, binds: Default::default(), tries: Default::default(), try_scope: std::cell::Cell::new(false), ..cx.clone() };
+        sub.top_last.set(match &*c.body { Expr::Block(b) => b.block.stmts.last().map_or(std::ptr::null(), |x| x as *const Stmt), _ => std::ptr::null() });
+        let body = match &*c.body {
+            Expr::Block(b) => stmts(&sub, &b.block.stmts, ind + 2, None)?,
+            o => format!("{}{}", " ".repeat(ind + 2), expr(&sub, o)?),
+        };
+        cx.fresh.set(sub.fresh.get());
+        return Ok(format!("(Option.bind {} (fun {} =>\n{}))", paren(&recv), p, body));
+    }
     if name == "map" && m.args.len() == 1 {
         if let Expr::Closure(c) = &m.args[0] {
+            closure_guard(c)?;
             // `.map(|a| a.f())` with an Outcome-valued `f`: a panic inside the closure propagates
             if let Expr::MethodCall(inner) = &*c.body {
                 if OUTCOME_METHODS.contains(&inner.method.to_string().as_str()) && inner.args.is_empty() {
@@ -428,7 +693,8 @@ fn method_call(cx: &Ctx, m: &ExprMethodCall) -> R<String> {
                 }
             }
             let ps: Vec<String> = c.inputs.iter().map(|p| match p { Pat::Ident(i) => ident(&i.ident.to_string()), _ => "_".into() }).collect();
-            return Ok(format!("(Option.map (fun {} => {}) {})", ps.join(" "), expr(cx, &c.body)?, paren(&recv)));
+            if has_try(&c.body) { return Err("`?` inside a `map` closure".into()); }
+            return Ok(format!("(Option.map (fun {} => {}) {})", ps.join(" "), in_closure(cx, || expr(cx, &c.body))?, paren(&recv)));
         }
         return Err("map of non-closure".into());
     }
@@ -457,6 +723,8 @@ fn method_call(cx: &Ctx, m: &ExprMethodCall) -> R<String> {
         ("point_pi1", 0) | ("point_pi2", 0) | ("g_tangent", 0) => format!("(Sm9.G2m.{} {})", name, paren(&recv)),
         ("eval_g_tangent", 1) | ("eval_g_line", 2) | ("q_power_frobenius", 1) | ("g_line", 1) =>
             format!("(Sm9.G2m.{} {} {})", name, paren(&recv), args.iter().map(|a| paren(a)).collect::<Vec<_>>().join(" ")),
+        ("is_none", 0) => format!("{}.isNone", paren(&recv)),
+        ("is_some", 0) => format!("{}.isSome", paren(&recv)),
         ("iter", 0) => recv,
         ("clone", 0) => recv,
         ("is_empty", 0) => format!("{}.isEmpty", paren(&recv)),
@@ -585,9 +853,30 @@ fn stmts(cx: &Ctx, ss: &[Stmt], ind: usize, tail: Option<&str>) -> R<String> {
     }
     let (st, rest) = (&ss[0], &ss[1..]);
     let last = rest.is_empty();
+    cx.ind.set(ind);
+    cx.tail_call.set(false);
     match st {
         Stmt::Local(l) => {
             let name = pat_str(&l.pat)?;
+            if let Some(init) = &l.init {
+                if init.diverge.is_some() { return Err("let-else".into()); }
+                // `let m = opt.map(|t| { y = t; });`
+                if let Some(text) = assigning_map(cx, &init.expr, &name, ind)? {
+                    flush(cx, &pad, &mut out);
+                    out.push_str(&text);
+                    out.push_str(&stmts(cx, rest, ind, tail)?);
+                    return Ok(out);
+                }
+                // `let z = <expression with nested ?>;`
+                if !matches!(&*init.expr, Expr::Try(t) if !has_try(&t.expr)) && has_try(&init.expr) && cx.ret_option && !cx.outcome {
+                    let v = opt_expr(cx, &init.expr, ind)?;
+                    cx.group_vars.borrow_mut().remove(&name);
+                    writeln!(out, "{}Option.bind {} (fun {} =>", pad, v, name).unwrap();
+                    out.push_str(&stmts(cx, rest, ind, tail)?);
+                    out.push(')');
+                    return Ok(out);
+                }
+            }
             match &l.init {
                 None => { /* `let x;` declared, assigned later */ cx.uninit.borrow_mut().insert(name.clone()); out.push_str(&stmts(cx, rest, ind, tail)?); return Ok(out); }
                 Some(init) => {
@@ -657,7 +946,17 @@ fn stmts(cx: &Ctx, ss: &[Stmt], ind: usize, tail: Option<&str>) -> R<String> {
                     write!(out, "{}self", pad).unwrap();
                     return Ok(out);
                 }
+                Expr::Return(_) if cx.some_tail => return Err("`return` inside an Option-valued block".into()),
+                Expr::Return(r) if matches!(r.expr.as_deref(), Some(Expr::Match(_))) => {
+                    // `return match .. { .. };`
+                    let Some(Expr::Match(mm)) = r.expr.as_deref() else { unreachable!() };
+                    let v = match_expr(cx, mm, ind)?;
+                    flush(cx, &pad, &mut out);
+                    write!(out, "{}({})", pad, v.trim_start()).unwrap();
+                    return Ok(out);
+                }
                 Expr::Return(r) => {
+                    cx.tail_call.set(matches!(r.expr.as_deref(), Some(Expr::MethodCall(mc)) if mc.method == "and_then"));
                     let v = expr(cx, r.expr.as_ref().ok_or("bare return")?)?;
                     flush(cx, &pad, &mut out);
                     write!(out, "{}{}", pad, wrap_result(cx, v)).unwrap();
@@ -702,7 +1001,33 @@ fn stmts(cx: &Ctx, ss: &[Stmt], ind: usize, tail: Option<&str>) -> R<String> {
                     flush(cx, &pad, &mut out);
                     writeln!(out, "{}let {} := Sm9.Api.normalize {}", pad, l, l).unwrap();
                 }
+                Expr::Assign(a) if cx.lib && place_mut(&a.left).is_some() => {
+                    // `*self.0.x_mut() = v`  →  let self := { self with x := v }
+                    let (base_e, field) = place_mut(&a.left).unwrap();
+                    let base = lhs_str(cx, base_e)?;
+                    let v = expr(cx, &a.right)?;
+                    flush(cx, &pad, &mut out);
+                    writeln!(out, "{}let {} := {{ {} with {} := {} }}", pad, base, base, field, v).unwrap();
+                }
+                Expr::Assign(a) if matches!(&*a.right, Expr::Try(t) if !has_try(&t.expr)) && matches!(&*a.left, Expr::Path(_)) => {
+                    // `y = e?;`
+                    let Expr::Try(t) = &*a.right else { unreachable!() };
+                    if !cx.ret_option || cx.outcome { return Err("`?` in a function not returning Option".into()); }
+                    let l = lhs_str(cx, &a.left)?;
+                    let inner = expr(cx, &t.expr)?;
+                    writeln!(out, "{}match {} with", pad, inner).unwrap();
+                    writeln!(out, "{}| none => none", pad).unwrap();
+                    writeln!(out, "{}| some {} =>", pad, l).unwrap();
+                    out.push_str(&stmts(cx, rest, ind + 2, tail)?);
+                    return Ok(out);
+                }
+                Expr::MethodCall(mc) if semi.is_some() && mc.method == "map" && assigning_map(cx, e, "_", ind)?.is_some() => {
+                    let text = assigning_map(cx, e, "_", ind)?.unwrap();
+                    flush(cx, &pad, &mut out);
+                    out.push_str(&text);
+                }
                 Expr::Assign(a) => {
+                    if has_try(&a.right) { return Err("`?` nested in an assignment".into()); }
                     if let Expr::Field(f) = &*a.left {
                         // num.c0 = e   →  let num := { num with c0 := e }
                         let base = lhs_str(cx, &f.base)?;
@@ -782,8 +1107,12 @@ fn stmts(cx: &Ctx, ss: &[Stmt], ind: usize, tail: Option<&str>) -> R<String> {
                         if cnd.is_none() { closed = true; }
                     }
                     let monadic = parts.iter().any(|(_, b)| b.contains('←'));
-                    let fin = if monadic { format!("pure {}", paren(&tup)) } else { tup.clone() };
-                    writeln!(out, "{}let {} {}", pad, tup, if monadic { "←" } else { ":=" }).unwrap();
+                    // a `?` inside a branch (`if c { y = e?; }`): the `if` is an Option-valued expression, bound by `Option.bind`
+                    let optional = has_try(i);
+                    if optional && (monadic || !cx.ret_option || cx.outcome || has_try(&i.cond)) { return Err("`?` inside a statement `if`".into()); }
+                    let fin = if monadic { format!("pure {}", paren(&tup)) } else if optional { format!("(some {})", tup) } else { tup.clone() };
+                    if optional { writeln!(out, "{}Option.bind (", pad).unwrap(); } else {
+                    writeln!(out, "{}let {} {}", pad, tup, if monadic { "←" } else { ":=" }).unwrap(); }
                     for (k, (cnd, body)) in parts.iter().enumerate() {
                         let body = body.replace('\u{1}', &fin);
                         let body = if monadic { format!("{}do\n{}", " ".repeat(ind + 4), body.lines().map(|l| format!("  {}", l)).collect::<Vec<_>>().join("\n")) } else { body };
@@ -794,6 +1123,13 @@ fn stmts(cx: &Ctx, ss: &[Stmt], ind: usize, tail: Option<&str>) -> R<String> {
                         }
                     }
                     if !closed { writeln!(out, "\n{}  else {}", pad, fin).unwrap(); } else { writeln!(out).unwrap(); }
+                    if optional {
+                        out.truncate(out.trim_end().len());
+                        writeln!(out, ") (fun {} =>", tup).unwrap();
+                        out.push_str(&stmts(cx, rest, ind, tail)?);
+                        out.push(')');
+                        return Ok(out);
+                    }
                 }
                 Expr::While(w) => {
                     // `while c { body }` over the variables the body assigns; fuel 128 = width of the only loop
@@ -836,13 +1172,20 @@ fn stmts(cx: &Ctx, ss: &[Stmt], ind: usize, tail: Option<&str>) -> R<String> {
                     }
                     writeln!(out, ") {} {}", tup, paren(&it)).unwrap();
                 }
+                Expr::Match(_) if last && cx.some_tail => return Err("match as the value of an Option-valued block".into()),
                 Expr::Match(m) if last => {
                     let v = match_expr(cx, m, ind)?;
                     flush(cx, &pad, &mut out);
                     write!(out, "{}", v).unwrap();
                     return Ok(out);
                 }
+                other if last && semi.is_none() && cx.some_tail => {
+                    let v = opt_expr(cx, other, ind)?;
+                    write!(out, "{}{}", pad, v).unwrap();
+                    return Ok(out);
+                }
                 other if last && semi.is_none() => {
+                    cx.tail_call.set(std::ptr::eq(st as *const Stmt, cx.top_last.get()) && matches!(other, Expr::MethodCall(mc) if mc.method == "and_then"));
                     let v = expr(cx, other)?;
                     let tail_bind = { let b = cx.binds.borrow(); match b.last() { Some((bv, _)) if *bv == v && !cx.mut_self => true, _ => false } };
                     if tail_bind {
@@ -862,6 +1205,55 @@ fn stmts(cx: &Ctx, ss: &[Stmt], ind: usize, tail: Option<&str>) -> R<String> {
     }
     out.push_str(&stmts(cx, rest, ind, tail)?);
     Ok(out)
+}
+
+/// `*BASE.x_mut()` / `y_mut` / `z_mut` (lib.rs: `BASE` is `self.0`, the newtype projection is the identity): (BASE, field)
+fn place_mut(e: &Expr) -> Option<(&Expr, &'static str)> {
+    let Expr::Unary(u) = e else { return None };
+    if !matches!(u.op, UnOp::Deref(_)) { return None; }
+    let Expr::MethodCall(m) = &*u.expr else { return None };
+    if !m.args.is_empty() { return None; }
+    let field = match m.method.to_string().as_str() { "x_mut" => "x", "y_mut" => "y", "z_mut" => "z", _ => return None };
+    let mut base = &*m.receiver;
+    loop { match base { Expr::Paren(p) => base = &p.expr, Expr::Field(f) if matches!(&f.member, Member::Unnamed(i) if i.index == 0) => base = &f.base, _ => break } }
+    if matches!(base, Expr::Path(_)) { Some((base, field)) } else { None }
+}
+
+/// `OPT.map(|t| { y = e; .. })` — a closure whose body only assigns captured variables: a `match` on `OPT` that rebinds them,
+/// next to the (unit) result `name : Option Unit`.  `None`: not of this shape.
+fn assigning_map(cx: &Ctx, e: &Expr, name: &str, ind: usize) -> R<Option<String>> {
+    let Expr::MethodCall(mc) = e else { return Ok(None) };
+    if mc.method != "map" || mc.args.len() != 1 { return Ok(None); }
+    let Expr::Closure(c) = &mc.args[0] else { return Ok(None) };
+    let assigned = captured_assigns(c)?;
+    if assigned.is_empty() { return Ok(None); }
+    let Expr::Block(b) = &*c.body else { return Err("closure assigns a captured variable in an expression body".into()) };
+    let p = closure_param(c)?;
+    let pad = " ".repeat(ind);
+    let mut lets = String::new();
+    let mut vars: BTreeSet<String> = BTreeSet::new();
+    for st in &b.block.stmts {
+        let Stmt::Expr(Expr::Assign(a), Some(_)) = st else { return Err("closure assigning captured variables: only `x = e;` statements are supported".into()) };
+        let Expr::Path(lp) = &*a.left else { return Err("closure assigning captured variables: assignment target".into()) };
+        if lp.path.segments.len() != 1 { return Err("closure assigning captured variables: assignment target".into()); }
+        if has_try(&a.right) || matches!(&*a.right, Expr::Closure(_)) { return Err("closure assigning captured variables: right-hand side".into()); }
+        let l = ident(&path_str(&lp.path));
+        let v = in_closure(cx, || expr(cx, &a.right))?;
+        if !cx.binds.borrow().is_empty() { return Err("panic site inside a closure".into()); }
+        writeln!(lets, "{}    let {} := {}", pad, l, v).unwrap();
+        vars.insert(l);
+    }
+    if vars != assigned.iter().map(|v| ident(v)).collect() { return Err("closure assigning captured variables: unrecognised assignment".into()); }
+    if vars.contains(name) || vars.contains(&p) { return Err("closure assigning captured variables: name clash".into()); }
+    let recv = expr(cx, &mc.receiver)?;
+    let vs: Vec<String> = vars.into_iter().collect();
+    let mut out = String::new();
+    writeln!(out, "{}let ({}, {}) := match {} with", pad, vs.join(", "), name, recv).unwrap();
+    writeln!(out, "{}  | some {} =>", pad, p).unwrap();
+    out.push_str(&lets);
+    writeln!(out, "{}    ({}, some ())", pad, vs.join(", ")).unwrap();
+    writeln!(out, "{}  | none => ({}, none)", pad, vs.join(", ")).unwrap();
+    Ok(Some(out))
 }
 
 fn block_is_unit(b: &Block) -> bool {
@@ -959,7 +1351,7 @@ fn contains_unwrap(b: &Block) -> bool {
 struct Target { file: &'static str, self_ty: &'static str, lean_ns: &'static str, mono: Option<&'static str>, fns: &'static [&'static str] }
 
 /// Lean name of the `Error` enum of a source file
-fn err_ty_of(file: &str) -> &'static str { match file { "groups.rs" => "GroupError", "lib.rs" => "CurveError", _ => "FieldError" } }
+fn err_ty_of(file: &str) -> &'static str { match file { "groups.rs" => "GroupError", "lib.rs" => "CurveError", _ => "U256Error" } }   // fields/*.rs import `u256::Error`
 
 const TARGETS: &[Target] = &[
     Target { file: "fields/fq2.rs", self_ty: "Fq2", lean_ns: "Fq2", mono: None, fns: &["new", "scale", "unitary_inverse", "mul_by_nonresidue", "div2", "i", "neg_inplace", "sub_inplace", "add_inplace", "mul_inplace", "zero", "is_zero", "one", "double", "triple", "squared", "inverse", "to_slice"] },
@@ -983,10 +1375,36 @@ const TARGETS: &[Target] = &[
     Target { file: "lib.rs", self_ty: "AffineG2", lean_ns: "LibAffineG2", mono: None, fns: &["from_jacobian"] },
     Target { file: "lib.rs", self_ty: "G2Prepared", lean_ns: "LibG2Prepared", mono: None, fns: &["pairing", "from"] },
     Target { file: "lib.rs", self_ty: "", lean_ns: "Lib", mono: None, fns: &["pairing", "fast_pairing"] },
+    // `self_ty` may carry a trait filter `Type@Trait<Args>` (only that trait impl) — `Type` alone matches every impl of the type
+    Target { file: "fields/fq2.rs", self_ty: "Fq2", lean_ns: "Fq2", mono: None, fns: &["real", "imaginary", "sqrt", "from_slice"] },
+    Target { file: "lib.rs", self_ty: "Fq2", lean_ns: "LibFq2", mono: None, fns: &["one", "zero", "new", "is_zero", "is_even", "real", "imaginary", "sqrt", "from_slice", "to_slice", "add_inplace", "sub_inplace", "mul_inplace", "neg_inplace"] },
+    Target { file: "lib.rs", self_ty: "Fq2@TryFrom<&[u8]>", lean_ns: "LibFq2", mono: None, fns: &["try_from"] },
+    Target { file: "lib.rs", self_ty: "[u8;64]@From<Fq2>", lean_ns: "LibFq2", mono: None, fns: &["from"] },
+    Target { file: "lib.rs", self_ty: "AffineG1", lean_ns: "LibAffineG1", mono: None, fns: &["new", "x", "y", "set_x", "set_y"] },
+    Target { file: "lib.rs", self_ty: "AffineG2", lean_ns: "LibAffineG2", mono: None, fns: &["new", "x", "y", "set_x", "set_y"] },
+    Target { file: "lib.rs", self_ty: "G1@From<AffineG1>", lean_ns: "LibG1", mono: None, fns: &["from"] },
+    Target { file: "lib.rs", self_ty: "G2@From<AffineG2>", lean_ns: "LibG2", mono: None, fns: &["from"] },
+    Target { file: "lib.rs", self_ty: "G1", lean_ns: "LibG1", mono: None, fns: &["x", "y", "z", "b", "set_x", "set_y", "set_z"] },
+    Target { file: "lib.rs", self_ty: "G2", lean_ns: "LibG2", mono: None, fns: &["x", "y", "z", "b", "set_x", "set_y", "set_z"] },
+    Target { file: "lib.rs", self_ty: "Fr@Mul<G1>", lean_ns: "LibFrG1", mono: None, fns: &["mul"] },
+    Target { file: "lib.rs", self_ty: "Fr@Mul<G2>", lean_ns: "LibFrG2", mono: None, fns: &["mul"] },
 ];
 
+impl Target {
+    /// the type name part of `self_ty`
+    fn ty(&self) -> &'static str { self.self_ty.split('@').next().unwrap() }
+    /// the trait filter part of `self_ty`, if any
+    fn tr(&self) -> Option<&'static str> { self.self_ty.split_once('@').map(|(_, t)| t) }
+}
+
 fn impl_self_name(im: &ItemImpl) -> Option<String> {
-    match &*im.self_ty { Type::Path(p) => p.path.segments.last().map(|s| s.ident.to_string()), _ => None }
+    match &*im.self_ty { Type::Path(p) => p.path.segments.last().map(|s| s.ident.to_string()), Type::Array(a) => Some(quote::quote!(#a).to_string().replace(' ', "")), _ => None }
+}
+
+/// `type Error = X;` of a trait impl
+fn impl_assoc_err(im: &ItemImpl) -> String {
+    for ii in &im.items { if let ImplItem::Type(t) = ii { if t.ident == "Error" { if let Type::Path(p) = &t.ty { return path_str(&p.path); } } } }
+    String::new()
 }
 
 fn main() {
@@ -1004,20 +1422,23 @@ fn main() {
         let file = match parse_file(&text) { Ok(f) => f, Err(e) => { report.insert(format!("{}::<file>", t.file), format!("parse error: {}", e)); continue; } };
         let mut found: BTreeSet<String> = BTreeSet::new();
         for it in &file.items {
-            if let (Item::Fn(f), "") = (it, t.self_ty) {
+            if let (Item::Fn(f), "") = (it, t.ty()) {
                 let name = f.sig.ident.to_string();
                 if !t.fns.contains(&name.as_str()) || found.contains(&name) { continue; }
                 let m = ImplItemFn { attrs: vec![], vis: f.vis.clone(), defaultness: None, sig: f.sig.clone(), block: (*f.block).clone() };
                 let key = format!("{}.{}", t.lean_ns, name);
                 if excluded.contains(&key) { report.insert(key, "skipped: the generated definition does not elaborate in Lean (ill-typed translation)".into()); continue; }
-                match translate_fn(t, &m) {
+                match translate_fn(t, &m, "") {
                     Ok((text, params, arms)) => { found.insert(name.clone()); defs.push_str(&text); defs.push('\n'); report.insert(key, "translated".into()); emitted.push((t.lean_ns.to_string(), name, params, arms)); }
                     Err(e) => { report.insert(key, format!("skipped: {}", e)); }
                 }
                 continue;
             }
             let Item::Impl(im) = it else { continue };
-            if impl_self_name(im).as_deref() != Some(t.self_ty) { continue; }
+            if impl_self_name(im).as_deref() != Some(t.ty()) { continue; }
+            if let Some(want) = t.tr() {
+                match &im.trait_ { Some((_, tr, _)) if quote::quote!(#tr).to_string().replace(' ', "") == want => {} _ => continue }
+            }
             for ii in &im.items {
                 let ImplItem::Fn(m) = ii else { continue };
                 let name = m.sig.ident.to_string();
@@ -1031,7 +1452,7 @@ fn main() {
                 if found.contains(&name) { continue; }
                 let key = format!("{}.{}", t.lean_ns, name);
                 if excluded.contains(&key) { report.insert(key, "skipped: the generated definition does not elaborate in Lean (ill-typed translation)".into()); continue; }
-                match translate_fn(t, m) {
+                match translate_fn(t, m, &impl_assoc_err(im)) {
                     Ok((text, params, arms)) => { found.insert(name.clone()); defs.push_str(&text); defs.push('\n'); report.insert(key, "translated".into()); emitted.push((t.lean_ns.to_string(), name, params, arms)); }
                     Err(e) => { report.insert(key, format!("skipped: {}", e)); }
                 }
@@ -1058,24 +1479,28 @@ fn write_if_changed(path: &str, text: &str) {
     if std::fs::read_to_string(path).ok().as_deref() != Some(text) { std::fs::write(path, text).expect("write"); }
 }
 
-fn translate_fn(t: &Target, m: &ImplItemFn) -> R<(String, Vec<String>, bool)> {
+fn translate_fn(t0: &Target, m: &ImplItemFn, assoc_err: &str) -> R<(String, Vec<String>, bool)> {
     let name = m.sig.ident.to_string();
+    let t = &Target { file: t0.file, self_ty: t0.ty(), lean_ns: t0.lean_ns, mono: t0.mono, fns: t0.fns };
     let self_lean = match t.self_ty { "G" => format!("G {}", t.mono.unwrap()), "AffineG" => format!("AffineG {}", t.mono.unwrap()), "G2" => "G2".to_string(), o => o.to_string() };
     let self_lean = if t.file == "lib.rs" && t.self_ty == "" { String::new() } else { self_lean };
-    let self_lean = if t.file == "lib.rs" { match t.self_ty { "Gt" => "Fq12".to_string(), "AffineG1" => "AffineG Fq".to_string(), "AffineG2" => "AffineG Fq2".to_string(), _ => self_lean } } else { self_lean };
+    let self_lean = if t.file == "lib.rs" { match t.self_ty { "Gt" => "Fq12".to_string(), "AffineG1" => "AffineG Fq".to_string(), "AffineG2" => "AffineG Fq2".to_string(), o if o.starts_with("[u8;") => "List UInt8".to_string(), _ => self_lean } } else { self_lean };
     let ret_s = match &m.sig.output { ReturnType::Type(_, ty) => quote::quote!(#ty).to_string(), _ => String::new() };
     let ret_option = ret_s.starts_with("Option");
     let ret_result = ret_s.starts_with("Result");
     let mut_self = m.sig.inputs.iter().any(|a| matches!(a, FnArg::Receiver(r) if r.mutability.is_some() && r.reference.is_some()));
     let outcome = contains_unwrap(&m.block) || calls_outcome(&m.block) || (t.self_ty == "G2Prepared" && name == "miller_loop");
-    let tower_bytes = t.file.starts_with("fields/fq") && name == "to_slice";
+    let tower_bytes = t.file.starts_with("fields/fq") && (name == "to_slice" || name == "from_slice");
+    let ret_err = if ret_result { ret_s.rsplit(',').next().unwrap_or("").trim().trim_end_matches('>').trim().replace(' ', "") } else { String::new() };
     let lib = t.file == "lib.rs" || tower_bytes;
     let unit_ret = matches!(&m.sig.output, ReturnType::Default) && mut_self;
     // the type whose `to_slice` / `is_even` the byte code of this impl calls on its components
     let elem = match (lib, t.self_ty) { (true, "G1") => "Fq", (true, "G2") => "Fq2", (true, "Fq2") => "Fq", (true, "Fq4") => "Fq2", (true, "Fq12") if tower_bytes => "Fq4", _ => "" }.to_string();
     let outcome = outcome || (lib && { let b = &m.block; let s = quote::quote!(#b).to_string().replace(' ', ""); s.contains("pairings::pairing(") || s.contains("pairings::fast_pairing(") || s.contains("copy_from_slice(") });
     let cx = Ctx { self_ty: self_lean.clone(), mono: t.mono.map(|s| s.to_string()), ret_option, outcome, mut_self: mut_self && !unit_ret, fresh: std::cell::Cell::new(0), binds: Default::default(), uninit: Default::default(),
-                   ret_result, err_ty: err_ty_of(t.file).to_string(), group_vars: Default::default(), ns: t.lean_ns.to_string(), lib, elem, unit_ret };
+                   ret_result, err_ty: err_ty_of(t.file).to_string(), group_vars: Default::default(), ns: t.lean_ns.to_string(), lib, elem, unit_ret,
+                   try_scope: Default::default(), tries: Default::default(), some_tail: false, ind: Default::default(), assoc_err: assoc_err.replace("::", "."), ret_err,
+                   tail_call: Default::default(), top_last: std::cell::Cell::new(m.block.stmts.last().map_or(std::ptr::null(), |x| x as *const Stmt)) };
     let mut params = vec![];
     let mut pnames = vec![];
     for a in &m.sig.inputs {
